@@ -4378,6 +4378,7 @@ class FlowIR(object):
 
         if num_stages:
             weights = []
+            malformed_weights = False
             for idx in range(num_stages):
                 if idx not in flowir[self.FieldStatusReport]:
                     flowir[self.FieldStatusReport][idx] = {'stage-weight': 0.0}
@@ -4387,6 +4388,8 @@ class FlowIR(object):
                 try:
                     stage_weight = float(flowir[self.FieldStatusReport][idx]['stage-weight'])
                 except ValueError:
+                    # VV: leave the malformed value in place so that validation reports it
+                    malformed_weights = True
                     stage_weight = 0.0
 
                 weights.append(stage_weight)
@@ -4394,7 +4397,7 @@ class FlowIR(object):
             # VV: adding floats is hard, tolerate rounding errors but insist on non-negative weights that add to one
             weights_are_valid = all(e >= 0.0 for e in weights) and abs(sum(weights) - 1.0) < 1e-6
 
-            if not weights_are_valid:
+            if not weights_are_valid and not malformed_weights:
                 fallbackWeight = int(1000 / num_stages) / 1000.0
 
                 flowirLogger.log(19, "Stage weights do not add to one: %s = %3.3lf\n" % (weights, sum(weights)))
